@@ -1316,6 +1316,12 @@ class Interp:
             return PyConst('modelclass', name)
         if name in self.w.registry.specs:
             return PyConst('spec', name, self.w.registry.specs[name])
+        if name in self.w.registry.spec_consts:
+            return self.py_literal(self.w.registry.spec_consts[name], n)
+        if name == 'ast':
+            return PyConst('module', 'ast')
+        if name == 'UndefinedType':
+            return PyConst('astclass', 'UndefinedType')
         if name in ('closedlist', 'list', 'tuple', 'dict', 'set', 'str', 'int', 'bool', 'frozenset', 'float', 'type'):
             return PyConst('builtin', name)
         # module-level function or constant of the module being interpreted
@@ -1358,6 +1364,13 @@ class Interp:
             return PyTuple(list(val))
         if isinstance(val, list):
             return self.seq_of([self.to_val(x, n) for x in val])
+        if isinstance(val, dict) and all(isinstance(k, str) for k in val):
+            keys = z3.K(z3.StringSort(), z3.BoolVal(False))
+            vals = z3.K(z3.StringSort(), Val.none)
+            for k, v in val.items():
+                keys = z3.Store(keys, z3.StringVal(k), True)
+                vals = z3.Store(vals, z3.StringVal(k), self.to_val(v, n))
+            return Val.vdict(keys, vals)
         self.oos(f'module constant of type {type(val).__name__}', n)
 
     def ex_NamedExpr(self, n):
@@ -2095,6 +2108,10 @@ class Interp:
             if inside is None:
                 return None if e.origin is None else Val.vobj(z3.IntVal(0), z3.IntVal(0))
             return z3.If(inside, Val.vobj(z3.IntVal(0), z3.IntVal(0)), Val.none)
+        if c.kind == 'module' and c.name == 'ast':
+            if attr == 'walk':
+                return PyConst('builtin', 'ast_walk')
+            return PyConst('astclass', attr)
         if c.kind == 'module':
             return self.global_name(attr, n)
         if c.kind in ('class', 'record'):
@@ -2367,7 +2384,7 @@ BUILTINS = {
     'len', 'isinstance', 'bool', 'int', 'str', 'min', 'max', 'range', 'all', 'any', 'getattr', 'hasattr',
     'callable', 'next', 'iter', 'enumerate', 'abs', 'repr', 'sorted', 'hash', 'issubclass', 'super', 'print', 'id',
     'ord', 'chr', 'zip', 'sum', 'old', 'int_ok', 'uint_ok', 'float_ok', 'implies', 'type', 'dict_with', 'dict_get',
-    'dict_has', 'seq_eq', 'out_ok', 'out_frame', 'out_ret', 'out_cut', 'out_fail_frame', 'exc_inside', 'exc_is', 'boundcall', 'top_only', 'store', 'o_none', 'o_ok', 'same_func', 'ismethod', 'is_func', 'is_ok', 'is_err', 'ok_res', 'is_failure', 'grown', 'memo_ok', 'outcome_ok', 'submap',
+    'dict_has', 'seq_eq', 'out_ok', 'out_frame', 'out_ret', 'out_cut', 'out_fail_frame', 'exc_inside', 'exc_is', 'boundcall', 'top_only', 'store', 'o_none', 'o_ok', 'same_func', 'ismethod', 'is_func', 'ast_walk', 'is_ok', 'is_err', 'ok_res', 'is_failure', 'grown', 'memo_ok', 'outcome_ok', 'submap',
 }
 
 
